@@ -352,6 +352,12 @@ func (idx *PQIndex) Remove(vector VectorNode) error {
 	// STEP 2: MARK AS DELETED (WRITE LOCK - ONLY FOR BITMAP UPDATE)
 	// ════════════════════════════════════════════════════════════════════════
 	idx.mu.Lock()
+	// Re-check under the write lock: a concurrent Remove of the same ID may have
+	// marked it between the check above and this point
+	if idx.deletedNodes.Contains(id) {
+		idx.mu.Unlock()
+		return fmt.Errorf("vector with ID %d already deleted", id)
+	}
 	idx.deletedNodes.Add(id)
 	idx.mu.Unlock()
 
